@@ -966,6 +966,9 @@ def stage_resp(ctx, side):
     margins = {1: [], 3: [], 5: []}
     dis = []
     hyp_bad = []
+    fb_lines, fb_meta, fb_done, fb_bad = [], [], [], []
+    fb_margin = {1: [], 3: [], 5: []}
+    import math
     for l in (1, 3, 5):
         p = PRIMES[l]
         gens = ["gen.signlat %s %s" % (hx(rng.bits(60)), hx(FEXP[l])) for _ in range(per)]
@@ -1012,6 +1015,22 @@ def stage_resp(ctx, side):
             margins[l].append(rl - (math.log2(n0.numerator) - math.log2(n0.denominator)))
             mlines.append("resp.model %s %s %s %s %s %s" % (hx(cp), hx(rl), hx(denom), hx(content), parts[2], parts[4]))
             midx.append((line, parts, okp))
+            # hypotheses of `fallback_short_of_certificate` on this input: accepted certificate for (lattice, lll) and
+            #   p^2 det(lattice)^2 < (delta-eta^2)^6 (dg 2^(rl+1))^4,  dg = denom^2 content / 2
+            dg = abs(denom * denom * content) // 2
+            c6 = (DELTA_CHK - ETA_CHK ** 2) ** 6
+            lhs = Fraction(cp * cp * det_int(lat) ** 2)
+            rhs = c6 * (dg * 2 ** (rl + 1)) ** 4
+            fb_lines.append("lll.check %s %s %s %s" % (check_args(DELTA_CHK, ETA_CHK), hx(cp), mat_hex(lat), mat_hex(lll)))
+            fb_meta.append((line, lhs < rhs))
+            if lhs > 0:
+                fb_margin[l].append((math.log2(rhs.numerator) - math.log2(rhs.denominator) - math.log2(lhs.numerator)) / 4)
+        if fb_lines[len(fb_done):]:
+            for (line, detok), r in zip(fb_meta[len(fb_done):], side.lean(fb_lines[len(fb_done):])):
+                fb_done.append(1)
+                hist(ctx, "resp_fallback_theorem_hypotheses(certificate accepted, determinant inequality)", "%s,%s" % (r == "0", detok))
+                if r != "0" or not detok:
+                    fb_bad.append(dict(op=line[:200], lllCheck=r, det_inequality=detok))
         mo = side.lean(mlines)
         for (line, parts, okp), m in zip(midx, mo):
             mp = [x.strip() for x in m.split("|")]
@@ -1034,6 +1053,13 @@ def stage_resp(ctx, side):
     ctx.obligation("correspondence sample_response decision logic vs C on replayed candidate draws", not dis, json.dumps(dis[:2])[:600])
     ctx.obligation("hypotheses of sample_response_found_pos (the three C asserts + full rank) hold on every signing-shaped input",
                    not hyp_bad, json.dumps(hyp_bad[:2])[:400])
+    ctx.obligation("hypotheses of fallback_short_of_certificate (accepted certificate + determinant inequality) hold on every "
+                   "signing-shaped input", not fb_bad, json.dumps(fb_bad[:2])[:400])
+    ctx.coverage["resp_fallback_determinant_margin_bits(per unit of norm)"] = {
+        str(l): dict(min=round(min(v), 2), n=len(v)) for l, v in fb_margin.items() if v}
+    if fb_bad:
+        ctx.violation("resp:fallback-hypothesis-fails", "the hypotheses under which the fallback branch of sample_response is proved "
+                      "short fail on a signing-shaped lattice", fb_bad[0], found=False)
     if hyp_bad:
         ctx.violation("resp:asserted-condition-fails", "a condition that sample_response only asserts (divisor positive / exact division / "
                       "even 2*norm / full-rank LLL basis) fails on a signing-shaped lattice", hyp_bad[0], found=False)
